@@ -6,6 +6,7 @@ import SifVerif.Proofs.CreateWF
 import SifVerif.Proofs.Zero
 import SifVerif.Proofs.RangesStep
 import SifVerif.Proofs.CreateRanges
+import SifVerif.Proofs.CleanHistory
 namespace Sif.C03
 
 variable (sha : Bytes → Bytes) (ph : Bytes → Option Bytes)
@@ -131,6 +132,31 @@ theorem C03_frame (s : Img) (W : WF s) (P : Placed s) (R : Ranges s) (op : Op) (
     objContent (step sha ph s op now).1.st d = objContent s.st d ∧
     (0 < d.size → d.off + d.size ≤ (step sha ph s op now).1.st.buf.length) :=
   step_frame sha ph s W P R op now i d hd hu hsv hio
+
+/-- **bystanders, at any point of any history from creation**: after an accepted `CreateContainer`
+    (options representable, capacity positive) and any history of operations with representable
+    inputs and no store failure, the next operation — whatever it is — leaves every live object it
+    does not delete with byte-identical content inside the file.  The invariants `C03_frame` asks of
+    the state are consequences (`C09Inv_history`), not hypotheses. -/
+theorem C03_frame_after_history (be : Backend) (co : CreateOpts) (hin : co.InRange) (hcap : 0 < co.capacity)
+    (hdoff : 128 ≤ co.doff) (h : (createContainerPlan sha ph be co).2.2 = .ok)
+    (ops : List (Op × Int)) (op : Op) (now : Int) :
+    ∃ st0, (emptyStore be).calls (createContainerPlan sha ph be co).1 = some st0 ∧
+      let s0 : Img := { (createContainerPlan sha ph be co).2.1 with st := st0 }
+      ((∀ k op now, ops[k]? = some (op, now) → Op.InRange (runOps sha ph s0 (ops.take k)) op now) →
+       (∀ k op now, ops[k]? = some (op, now) →
+          (step sha ph (runOps sha ph s0 (ops.take k)) op now).2 ≠ .err .io) →
+       (step sha ph (runOps sha ph s0 ops) op now).2 ≠ .err .io →
+       ∀ (i : Nat) (d : RawDesc), (runOps sha ph s0 ops).rds[i]? = some d → d.used = true →
+         ((plan sha ph (runOps sha ph s0 ops) op now).2.2 = .ok → survives ph op d) →
+         objContent (step sha ph (runOps sha ph s0 ops) op now).1.st d = objContent (runOps sha ph s0 ops).st d ∧
+         (0 < d.size → d.off + d.size ≤ (step sha ph (runOps sha ph s0 ops) op now).1.st.buf.length)) := by
+  obtain ⟨st0, h1, I0⟩ := created_C09Inv sha ph be co hin hcap hdoff h
+  refine ⟨st0, h1, ?_⟩
+  intro s0 hi hio hio' i d hd hu hsv
+  have I := C09Inv_history sha ph s0 ops I0 hi hio ops.length
+  rw [List.take_length] at I
+  exact C03_frame sha ph _ I.wf I.placed I.ranges op now i d hd hu hsv hio'
 
 /-- … nor a byte of its descriptor: slots other than the one `AddObject` fills are unchanged -/
 theorem C03_frame_desc_add (s : Img) (di : DI) (t : TOpt) (now : Int) (j : Nat)
